@@ -5,6 +5,50 @@ package picker
 // Comment-only contract file for the deductive verifier in /verif (see /verif/DESIGN.md).
 // It contains no code; with the build tag off the file is not even compiled.
 //
+//@ import geom.smt2 rules.smt2
+//@
 //@ func (*Picker).Next view search
 //@   trusted frame only: advances the picker and fills the top frame of the move store; never touches the board or the frame stack
 //@   modifies p.state, p.ix, p.ms.allocIx, p.ms.data.*
+//@
+//@ # ---- C16: the staged iteration, one call of Next at a time.
+//@ # fs: start of the top frame of the move store; the picker's frame is data[fs : allocIx];
+//@ # its first ix entries have been yielded, the others are pending.
+//@ # gi is an arbitrary fixed (absolute) index into the store.
+//@ define fs(ms) = ite(len(ms.frames) != 0, ms.frames[len(ms.frames)-1].ix, 0)
+//@ define msOK(ms) = 0 <= fs(ms) && fs(ms) <= ms.allocIx && ms.allocIx <= len(ms.data)
+//@ define flen(p) = p.ms.allocIx - fs(p.ms)
+//@ define ent(p, k) = p.ms.data[fs(p.ms) + k]
+//@ define pend(p, j) = fs(p.ms) + p.ix <= j && j < p.ms.allocIx
+//@ # a pending entry that repeats the hash move carries the sentinel weight; every other one is above it
+//@ define wOK(e, h) = ite(e.Move == h, e.Weight == -16384, e.Weight >= -8192)
+//@ # (state 0: the frame is empty and there is room for the hash move - capacity of the store is assumed)
+//@ define PIshape(p) = msOK(p.ms) && 0 <= p.ix && p.ix <= flen(p) && p.state <= 4 && implies(p.state == 0, p.ix == 0 && flen(p) == 0 && p.ms.allocIx < len(p.ms.data)) && implies(p.state == 1, p.ix == 1 && flen(p) == 1 && ent(p, 0).Move == p.hashMove)
+//@ define PImarks(p) = implies(p.state >= 2 && pend(p, gi), wOK(p.ms.data[gi], p.hashMove))
+//@ define PI(p) = PIshape(p) && PImarks(p)
+//@
+//@ func (*Picker).Next
+//@   props C16
+//@   views picker
+//@   # the clauses over the arbitrary index gi are schemas; they are also used at the first pending entry
+//@   instances gi: fs(p.ms) + p.ix
+//@   requires PI(p) && repOK(p.board) && validPos(pos(p.board)) && p.hashMove < 1<<15
+//@   ensures [shape]     PIshape(p)
+//@   ensures [marks]     PImarks(p)
+//@   ensures [yield]     implies(result, p.ix == old(p.ix) + 1 && ent(p, p.ix - 1).Weight > -16384)
+//@   ensures [hashFirst] implies(old(p.state) == 0, (result && p.state == 1) == pseudo(pos(p.board), uint16(p.hashMove)) && implies(p.state == 1, ent(p, 0).Move == p.hashMove && ent(p, 0).Weight == 16384))
+//@   ensures [prefix]    implies(0 <= gi && gi < old(fs(p.ms) + p.ix), p.ms.data[gi] == old(p.ms.data[gi]))
+//@   ensures [exhausted] implies(!result, p.state == 4 && implies(pend(p, gi), p.ms.data[gi].Move == p.hashMove))
+//@   ensures [best]      implies(result && p.state >= 2 && pend(p, gi), p.ms.data[gi].Weight <= ent(p, p.ix - 1).Weight)
+//@   modifies p.state, p.ix, p.ms.allocIx, p.ms.data.*
+//@   nopanic
+//@   # rank loops: entries ranked so far obey the sentinel rule; moves and the yielded prefix never change
+//@   loop 1: invariant p.ix <= i && i <= flen(p) && implies(fs(p.ms) + p.ix <= gi && gi < fs(p.ms) + i, wOK(p.ms.data[gi], p.hashMove)) && implies(0 <= gi && gi < len(p.ms.data), p.ms.data[gi].Move == pre(p.ms.data[gi].Move)) && implies(0 <= gi && gi < fs(p.ms) + p.ix, p.ms.data[gi] == pre(p.ms.data[gi]))
+//@   loop 1: modifies p.ms.data.*
+//@   # selection loops: best is the first maximum seen so far above the threshold
+//@   loop 2: invariant p.ix <= i && i <= flen(p) && maxim >= 0 && ite(best == -1, maxim == 0, p.ix <= best && best < i && ent(p, best).Weight == maxim) && implies(fs(p.ms) + p.ix <= gi && gi < fs(p.ms) + i, p.ms.data[gi].Weight <= maxim)
+//@   loop 2: modifies nothing
+//@   loop 3: invariant quietStart <= i && i <= flen(p) && implies(fs(p.ms) + p.ix <= gi && gi < fs(p.ms) + i, wOK(p.ms.data[gi], p.hashMove)) && implies(0 <= gi && gi < len(p.ms.data), p.ms.data[gi].Move == pre(p.ms.data[gi].Move)) && implies(0 <= gi && gi < fs(p.ms) + p.ix, p.ms.data[gi] == pre(p.ms.data[gi]))
+//@   loop 3: modifies p.ms.data.*
+//@   loop 4: invariant p.ix <= i && i <= flen(p) && maxim >= -16383 && ite(best == -1, maxim == -16383, p.ix <= best && best < i && ent(p, best).Weight == maxim) && implies(fs(p.ms) + p.ix <= gi && gi < fs(p.ms) + i, p.ms.data[gi].Weight <= maxim)
+//@   loop 4: modifies nothing
